@@ -1,4 +1,5 @@
 import Soa.Lemmas.LoopTie
+import Soa.Lemmas.LoopsW
 /-!
 # `retain_mut` with a callback that writes to the element it is shown
 
@@ -12,33 +13,6 @@ set_option linter.unusedVariables false
 namespace Soa.Lp
 open Soa Soa.Model Soa.Extracted
 
-theorem setLeaf_lock (leaf pos id n : Nat) : ∀ (c : Cols) (j : Nat), c.lock n → (Model.setLeaf leaf pos id c j).1.lock n
-  | .leaf xs, j, h => by
-    simp only [Model.setLeaf]
-    split <;> simp_all
-  | .nest fs, j, h => by
-    rw [lock_nest] at h
-    simp only [Model.setLeaf, lock_nest]
-    refine ⟨?_, go fs j h.2⟩
-    cases fs with
-    | nil => exact absurd rfl h.1
-    | cons f fs => simp [Model.setLeaf.setLeafL]
-where go : ∀ (fs : List Cols) (j : Nat), (∀ c ∈ fs, c.lock n) → ∀ d ∈ (Model.setLeaf.setLeafL leaf pos id fs j).1, d.lock n
-  | [], j, _ => by simp [Model.setLeaf.setLeafL]
-  | f :: fs, j, h => by
-    intro d hd
-    simp only [Model.setLeaf.setLeafL, List.mem_cons] at hd
-    rcases hd with rfl | hd
-    · exact setLeaf_lock leaf pos id n f j (h f (by simp))
-    · exact go fs _ (fun x hx => h x (by simp [hx])) d hd
-
-/-- a write through a mutable element reference keeps every field array's length -/
-theorem writeLeaf_lock (c : Cols) (n leaf pos id : Nat) (h : c.lock n) : (Model.writeLeaf c leaf pos id).1.lock n := by
-  unfold Model.writeLeaf
-  split
-  · exact setLeaf_lock leaf pos id n c 0 h
-  · exact h
-
 section retainw
 variable (dr : Bool) (empty : Cols) (tr : Cols → Nat → Out) (sw : Cols → Nat → Nat → Out) (keep : Nat → Bool) (boom : Option Nat)
   (touch : Nat → Nat → Option (Nat × Nat)) (g : String) (n : Nat)
@@ -49,28 +23,6 @@ def retEnvW (fuel : Nat) : Env :=
 def retIterW (fuel : Nat) : Nat → Mach → Res Unit := fun i m =>
   (execList (retEnvW dr empty tr sw keep boom touch fuel) (retainBody g) { m with locals := ("i", .nat i) :: m.locals }).bind fun _ m =>
     .ok () { m with locals := m.locals.drop 1 }
-
-/-- the element, events and created values after the callback's write at call / position `i` -/
-def touched (c : Cols) (ev : Ev) (made : List Nat) (i : Nat) : Cols × Ev × List Nat :=
-  match touch i i with
-  | some (l, id) => let w := Model.writeLeaf c l i id; (w.1, ev ++ w.2.1, made ++ w.2.2)
-  | none => (c, ev, made)
-
-theorem touched_lock (c : Cols) (ev : Ev) (made : List Nat) (i : Nat) (hc : c.lock n) : (touched touch c ev made i).1.lock n := by
-  unfold touched
-  split
-  · exact writeLeaf_lock c n _ _ _ hc
-  · exact hc
-
-theorem retainLoop_succ (fuel i del : Nat) (c : Cols) (vis : List (List Nat)) (ev : Ev) (made : List Nat) :
-    Model.retainLoop keep boom touch (fuel + 1) i del c vis ev made =
-      (if boom = some i then ⟨(touched touch c ev made i).1, del, vis ++ [Model.rowAt c i], true, (touched touch c ev made i).2.1, (touched touch c ev made i).2.2⟩
-       else if !keep i then Model.retainLoop keep boom touch fuel (i + 1) (del + 1) (touched touch c ev made i).1 (vis ++ [Model.rowAt c i]) (touched touch c ev made i).2.1 (touched touch c ev made i).2.2
-       else if del > 0 then
-         Model.retainLoop keep boom touch fuel (i + 1) del
-           ((touched touch c ev made i).1.apply2 (swapOp (i - del) i) (Model.noArgs (touched touch c ev made i).1)).st (vis ++ [Model.rowAt c i]) (touched touch c ev made i).2.1 (touched touch c ev made i).2.2
-       else Model.retainLoop keep boom touch fuel (i + 1) del (touched touch c ev made i).1 (vis ++ [Model.rowAt c i]) (touched touch c ev made i).2.1 (touched touch c ev made i).2.2) := by
-  rfl
 
 theorem retain_loop_w (hsw : SwOk sw) (hg : g = "get" ∨ g = "get_mut") (F : Nat) :
     ∀ (fuel i del : Nat) (c : Cols) (m : Mach), c.lock n → i + fuel = n → del ≤ i → m.self = c →
@@ -151,54 +103,6 @@ theorem retain_loop_w (hsw : SwOk sw) (hg : g = "get" ∨ g = "get_mut") (F : Na
         · simp [retIterW, retainBody, execList, exec, eval, evalList, lookup, hl, baseLocals, callOther, hMlen, hMswap, hdrE,
             hm, hget, hcall, hcalls, hb, hk, arith, setLocal] at ih ⊢
           exact ih
-
-theorem retainLoopW_del_le :
-    ∀ (fuel i del : Nat) (c : Cols) (vis : List (List Nat)) (ev : Ev) (made : List Nat), del ≤ i →
-      (Model.retainLoop keep boom touch fuel i del c vis ev made).del ≤ i + fuel
-  | 0, i, del, c, vis, ev, made, h => by simp [Model.retainLoop]; omega
-  | fuel + 1, i, del, c, vis, ev, made, h => by
-    rw [retainLoop_succ]
-    split
-    · simp; omega
-    · split
-      · have := retainLoopW_del_le fuel (i + 1) (del + 1) (touched touch c ev made i).1 (vis ++ [Model.rowAt c i])
-          (touched touch c ev made i).2.1 (touched touch c ev made i).2.2 (by omega); omega
-      · split
-        · have := retainLoopW_del_le fuel (i + 1) del
-            ((touched touch c ev made i).1.apply2 (swapOp (i - del) i) (Model.noArgs (touched touch c ev made i).1)).st
-            (vis ++ [Model.rowAt c i]) (touched touch c ev made i).2.1 (touched touch c ev made i).2.2 (by omega); omega
-        · have := retainLoopW_del_le fuel (i + 1) del (touched touch c ev made i).1 (vis ++ [Model.rowAt c i])
-            (touched touch c ev made i).2.1 (touched touch c ev made i).2.2 (by omega); omega
-
-/-- the loop keeps every field array's length, whatever the callback writes -/
-theorem retainLoopW_lock :
-    ∀ (fuel i del : Nat) (c : Cols) (vis : List (List Nat)) (ev : Ev) (made : List Nat), c.lock n → i + fuel = n → del ≤ i →
-      (Model.retainLoop keep boom touch fuel i del c vis ev made).c.lock n
-  | 0, i, del, c, vis, ev, made, hc, _, _ => by simpa [Model.retainLoop] using hc
-  | fuel + 1, i, del, c, vis, ev, made, hc, hi, hd => by
-    have hc1 := touched_lock touch n c ev made i hc
-    have hin : i < n := by omega
-    rw [retainLoop_succ]
-    split
-    · exact hc1
-    · split
-      · exact retainLoopW_lock fuel (i + 1) (del + 1) _ _ _ _ hc1 (by omega) (by omega)
-      · split
-        · cases perField0 (swapOp (i - del) i) (touched touch c ev made i).1 n hc1 with
-          | ok s hrun _ hpn hst _ hlk _ hsm _ =>
-            rw [rows_noArgs _ n hc1] at hrun
-            have hlen := rows_len n _ hc1
-            have hlt : i - del < n := by omega
-            simp only [swapOp, PolyOp.ofTotal_run, hlen, hlt, hin, decide_true, List.length_nil, BEq.rfl,
-              Bool.and_self, ↓reduceIte, Option.some.injEq] at hrun
-            subst hrun
-            simp only at hst
-            have hlk' := lock_of_rows_len hlk (k := n) (by rw [hst]; simp [hlen])
-            exact retainLoopW_lock fuel (i + 1) del _ _ _ _ hlk' (by omega) (by omega)
-          | fail _ hfail _ _ _ =>
-            have hlt : i - del < n := by omega
-            simp [swapOp, hlt, hin] at hfail
-        · exact retainLoopW_lock fuel (i + 1) del _ _ _ _ hc1 (by omega) (by omega)
 
 end retainw
 
